@@ -586,6 +586,68 @@ Definition sos_noerh (k p rprime : Z) (draws : list Z) : option (Z * Z) :=
     Some (if half <? a1 then p - a1 else a1, if half <? b1 then p - b1 else b1)
   end.
 
+(* sumofsquaresmodprimeMonteCarlo  (lines 518-553).  draws_s: the values nonzerorandom(s, p.bitsize()) of the loop at 540-542 *)
+Fixpoint mc_down (fuel : nat) (t p : Z) : Z :=               (* for(--t ; legendre(t,p) == -1; --t); *)
+  match fuel with O => t | S f => if legendre t p =? -1 then mc_down f (t - 1) p else t end.
+Definition sos_mc (k p : Z) (draws_s draws : list Z) : option (Z * Z) :=
+  let r := k mod p in
+  if r =? 0 then Some (0, 0) else
+  if legendre r p =? 1 then
+    match sqrootmodprime r p draws with None => None | Some a => Some (a, 0) end
+  else
+    let s := r - 1 in
+    if legendre s p =? 1 then
+      match sqrootmodprime s p draws with None => None | Some b => Some (1, b) end
+    else
+      match pick (fun s => legendre s p =? -1) draws_s with
+      | None => None
+      | Some s0 => let t := mc_down (Z.to_nat (4 * Z.log2 p * Z.log2 p + 10)) (s0 - 1) p in
+                   sos_nonres r (t + 1) p draws
+      end.
+
+(* probable_prim_root(primroot, error, p, L) when the factorisation of p-1 is complete  (lines 201-262).
+   draws: the values nonzerorandom(alea, p); every loop `do ... while (essai == 1)` consumes draws until alea^((p-1)/q) != 1 *)
+Fixpoint ppr_pick (Temp p : Z) (draws : list Z) : option (Z * list Z) :=
+  match draws with
+  | [] => None
+  | d :: tl => let alea := d mod p in if powmod alea Temp p =? 1 then ppr_pick Temp p tl else Some (alea, tl)
+  end.
+Fixpoint ppr_loop (p pmun primroot : Z) (factors : list (Z * Z)) (draws : list Z) : option Z :=
+  match factors with
+  | [] => Some (primroot mod p)
+  | (q, e) :: tl =>
+    match ppr_pick (pmun / q) p draws with
+    | None => None
+    | Some (alea, draws') =>
+      let Temp := (pmun / q) / q ^ (e - 1) in
+      ppr_loop p pmun (primroot * powmod alea Temp p) tl draws'
+    end
+  end.
+Definition probable_prim_root (p : Z) (factors : list (Z * Z)) (draws : list Z) : option Z :=
+  ppr_loop p (p - 1) 1 factors draws.
+
+(* ========================================================================================== *)
+(* gmp++_int_misc.C : jacobi / legendre / kronecker are single calls of mpz_jacobi / mpz_legendre / mpz_kronecker,
+   which all compute the Kronecker symbol: binary Jacobi algorithm + the extension to even / negative / zero b *)
+Fixpoint jacobi_loop (fuel : nat) (a n t : Z) : Z :=          (* n odd positive, 0 <= a < n *)
+  match fuel with
+  | O => 0
+  | S f =>
+    if a =? 0 then (if n =? 1 then t else 0) else
+    let '(a', e) := split2 (log2_fuel a) a 0 in
+    let t1 := if Z.odd e && ((n mod 8 =? 3) || (n mod 8 =? 5)) then - t else t in
+    let t2 := if (a' mod 4 =? 3) && (n mod 4 =? 3) then - t1 else t1 in
+    jacobi_loop f (n mod a') a' t2
+  end.
+Definition jacobi_sym (a n : Z) : Z := jacobi_loop (2 * log2_fuel n + 2) (a mod n) n 1.
+Definition kronecker_sym (a b : Z) : Z :=
+  if b =? 0 then (if Z.abs a =? 1 then 1 else 0) else
+  if Z.even a && Z.even b then 0 else
+  let t0 := if (b <? 0) && (a <? 0) then -1 else 1 in
+  let '(b', v) := split2 (log2_fuel (Z.abs b)) (Z.abs b) 0 in
+  let t1 := if Z.odd v && ((a mod 8 =? 3) || (a mod 8 =? 5)) then - t0 else t0 in
+  t1 * jacobi_sym a b'.
+
 (* ========================================================================================== *)
 (* definitions the finite sweeps compare with (used by the proofs and by the driver's self-check) *)
 Definition count_units (n : Z) : Z :=
